@@ -85,6 +85,10 @@ class Engine(ExprMixin, CallMixin):
     def on_dict_write(self, st, d, k):
         pass
 
+    def called_by_others(self, con):
+        """generator contracts are never applied at call sites; everything else may be"""
+        return not con.generator
+
     def apply_hints(self, st, event, data):
         """lemma instances supplied by the contract at an event; each instance is a closed valid formula that is
         proved on its own (obligation kind 'lemma', no hypotheses) and only then assumed on the path"""
@@ -95,6 +99,8 @@ class Engine(ExprMixin, CallMixin):
         c = Ctx(self, st, getattr(self, 'entry_state', st), getattr(self, 'entry_args', {}))
         for item in hints(c, event, data) or []:
             if item[0] == 'ghost':          # ghost assignment
+                if self.called_by_others(con) and item[1] not in (getattr(con, 'ghost_mod', []) or []):
+                    raise Unsupported('contract error: ghost statement on %s not listed in ghost_mod of %s' % (item[1], con.qualname))
                 st = st.copy()
                 st.ghost[item[1]] = item[2]
                 continue
@@ -898,6 +904,10 @@ class Engine(ExprMixin, CallMixin):
         c = Ctx(self, s, self.entry_state, args, result=res)
         upd = ge(c, outcome)
         if upd:
+            missing = set(upd) - set(getattr(con, 'ghost_mod', []) or [])
+            if missing:
+                # a caller havocs only ghost_mod at a call by contract: an undeclared ghost update would be unsound there
+                raise Unsupported('contract error: ghost_exit of %s updates %s not listed in ghost_mod' % (con.qualname, sorted(missing)))
             s = s.copy()
             s.ghost.update(upd)
         return s
